@@ -16,6 +16,16 @@ NOTES = {
     'C04-c': 'needs > 256 groups under one parent: reached by the many-keys scale cases (260-300 parties)',
     'C01-c': 'missed at first (small values); value style "huge" (>= 2**31) added',
     'C09-c': 'missed at first (plain path of scan not modelled, no accumulator returning None); C09 now has a plain-observable twin and the `nreset` accumulator with factory seeds',
+    'C16-d': 'missed at first (one stream at a time); C15/C16/C17 now also run two or three streams of the same operator alive at the same time, their chunks interleaved by the seeded schedule (module-level shared state = cross-talk)',
+    'C06-d': 'missed at first; predicate/key functions returning numpy scalars (whose != answers numpy.bool_) added',
+    'C15-d': 'missed at first (items <= 300 bytes); item sizes at the signed/unsigned limits of each prefix size added (32767/32768/65535 for 2 bytes)',
+    'C02-d': 'caught only by the thorough tier at first; terminators that mutate their argument in place added (and typed as aliasing when streaming)',
+    'C19-d': 'needs the optional encoding argument together with compression: encoding is now a generated dimension (utf-8/utf-16/utf-32/latin-1)',
+    'C17-d': 'needs latin-1 text starting with the three characters that look like a UTF-8 signature: signature look-alike prefixes are now generated',
+    'C18-d': 'needs U+FEFF inside a string at the start of a read chunk: U+FEFF / U+200B are now in the string alphabet (short reads put them at chunk starts)',
+    'C13-d': 'needs an exception instance whose truth value is False: the fault plan now raises such instances for part of the failing calls',
+    'C03-d': 'needs a source that emits while it is being subscribed: a cold synchronous driver is now used for part of the cases',
+    'C11-d': 'needs a closing item whose timestamp is older than its predecessor (clock skew): C11 now injects backward timestamp jumps for time_split cases (C07 itself stays within its non-decreasing precondition)',
     'C08-c': 'NOT caught, deliberately: it only shows when the *same* tee_map observable is subscribed a second time. Re-subscription is not in the property (and is not something rxsci supports in general: the publish() subject of tee_map is created once per pipeline and dies with the first completion - a resubscription oracle raised false alarms on the unchanged tree and was removed)',
     'C13-c': 'NOT caught, deliberately: it needs the same error router to be reused for a second stream lifetime after a first one ended in on_error; the property speaks about one stream ("completes with the stream"), so a single-use router would satisfy it - an oracle for reuse would be stronger than the text',
 }
